@@ -262,7 +262,11 @@ def store_case(rng, m, store=None, perm=None, fail=()):
     frames = []
     for i in range(m):
         lead = T.code(i, perm[i], 1 if i in fail else 0)
-        frames.append([[lead, T.code(50 + i)], [T.code(60 + 2 * i), T.code(61 + 2 * i)]])
+        rows = [[lead, T.code(50 + i)], [T.code(60 + 2 * i), T.code(61 + 2 * i)]]
+        # frames of different sizes, not in size order (a writer that reorders its tasks by size shows in the archive order)
+        for k in range(rng.choice([0, 0, 1, 2, 3])):
+            rows.append([T.code(70 + 3 * i + k), T.code(80 + 3 * i + k)])
+        frames.append(rows)
     labels = [tok('s' + 'abcdefgh'[i]) for i in range(m)]
     order = list(range(m))
     r = rng.random()
@@ -728,11 +732,11 @@ def eval_store(ctx, c, outs, res):
                 if i == c.get('per_label'):
                     # read with its own configuration (index_depth 0): the index column arrives as data
                     ctx.count('store_per_label_config_reads')
-                    if len(snap['values']) != 3:
+                    if len(snap['values']) != 3 or len(snap['values'][0]) != len(c['frames'][i]):
                         fails.append(Failure('oracle', f'{desc}: frame {i} has its own configuration (index_depth=0) but was read as {snap}', c))
                         break
                     continue
-                if snap['values'] != [[tok(c['frames'][i][0][0]), tok(c['frames'][i][1][0])], [tok(c['frames'][i][0][1]), tok(c['frames'][i][1][1])]]:
+                if snap['values'] != [[tok(row[j]) for row in c['frames'][i]] for j in range(2)]:
                     fails.append(Failure('oracle', f'{desc}: frame read under label {k} is not frame {i}: {snap}', c))
                     break
         w = res.get('par_written_read_seq', {})
